@@ -174,6 +174,18 @@ def judge(ctx, groups):
         total += len(cases)
         rows = fncommon.observe(ctx, "iter", cases, "it%d" % gi, nproc=4)
         viols = fncommon.validate(ctx, rows, "Val_C08", "it%d" % gi, nshards=8)
+        # design level (drift, not a violation): every evaluation of the map and the returned number of the real
+        # steffensen() runs against module Steffensen over doubles
+        srows = [{"id": r["id"], "method": r["method"], "start": r["start"], "tol": r["tol"], "n_max": r["n_max"], "obs": r["obs"]}
+                 for r in rows if r["method"] == "steffensen"]
+        if srows:
+            ndrift = len(ctx.drift)
+            fncommon.validate(ctx, srows, "Trace_Steffensen", "dlst%d" % gi, nshards=4)
+            ctx.traces -= len(srows)
+            st = [x for x in ctx.notes.pop("_stat", []) if x and x[0] == "steffensen_runs_explained"]
+            for key, v in (("validated_against_design", len(srows)), ("explained_bit_for_bit", sum(x[1] for x in st)),
+                           ("drifted", len(ctx.drift) - ndrift)):
+                ctx.notes["steffensen_runs_%s" % key] = ctx.notes.get("steffensen_runs_%s" % key, 0) + v
         for c, r in zip(cases, rows):
             start_is_root = c.get("start") == c.get("r")
             ctx.count_case(brief(c), not start_is_root and (c["dim"] >= 2 or r["obs"]["nf"] >= 3 or c["method"].endswith("polynomial")))
@@ -186,6 +198,7 @@ def judge(ctx, groups):
 
 def run(ctx):
     rng = random.Random(ctx.seed)
+    ctx.add_tlc(vlib.tlc("MC_Steffensen", workers=2, timeout=600, deque=False), e1=True)
     affine = fncommon.gen_tlc(ctx, "Gen_C08", "c08")
     n = 1 if ctx.tier == "quick" else 8
     judge(ctx, [affine + systems(rng, 800 * n), polys(rng, 400 * n), steff(rng, 200 * n)])
